@@ -27,8 +27,13 @@ Arm(s, id) == [s EXCEPT !.pending = TRUE, !.last = s.now,
 \* "a new call arrives while the callback is still running".  A tick therefore may contain several
 \* runs; they are replayed one by one from the recorded list <<id1, t1, id2, t2, ...>>.
 ReArms(id) == id >= 100 /\ id < 1000
-AfterRun(s, id, t) == LET s1 == [s EXCEPT !.pending = FALSE, !.burst = {}, !.fired = @ + 1] IN
-                      IF ReArms(id) THEN [s1 EXCEPT !.pending = TRUE, !.last = t, !.burst = {id + 1000}] ELSE s1
+\* A function whose id is in 200..299 is slow as well: having called the debounced function again it
+\* keeps running for wait + 1 units (it moves the clock itself), so the wait of the new call runs out
+\* WHILE this function is still executing - the new function has to run all the same.
+Slow(id) == id >= 200 /\ id < 300
+AfterRun(s, id, t) == LET s1 == [s EXCEPT !.pending = FALSE, !.burst = {}, !.fired = @ + 1]
+                          s2 == IF ReArms(id) THEN [s1 EXCEPT !.pending = TRUE, !.last = t, !.burst = {id + 1000}] ELSE s1 IN
+                      IF Slow(id) /\ t + s.wait + 1 > s2.now THEN [s2 EXCEPT !.now = t + s.wait + 1] ELSE s2
 RECURSIVE Runs(_, _, _, _)
 \* s: state with s.now = the END of the tick; lo: runs so far happened up to lo; q: the recorded runs left
 Runs(s, lo, q, i) ==
